@@ -880,6 +880,7 @@ def family_cases():
     cases.append(("loop[defined]", "ok", wb(loop("x;y", "it {{v}} {{word}}", "after {{word}}"), icf, data), ["first", "it x alpha", "it y alpha", "after alpha"]))
     cases.append(("loop[index]", "ok", wb(loop("x;y", "it {{v}} {{i}}", None, lv="v;i"), icf, data), ["first", "it x 0", "it y 1"]))
     cases.append(("loop[variable after end_for]", "error", wb(loop("x;y", "it {{v}}", "after {{v}}"), icf, data), None))
+    cases.append(("loop[variable after end_for, cell text identical to the loop body's]", "error", wb(loop("x;y", "it {{v}}", "it {{v}}"), icf, data), None))
     cases.append(("loop[index after end_for]", "error", wb(loop("x;y", "it {{v}}", "after {{i}}", lv="v;i"), icf, data), None))
     cases.append(("loop[list undefined, text]", "error", wb(loop("{{nope}}", "it {{v}}"), icf, data), None))
     cases.append(("loop[list undefined, native]", "error", wb(loop("{@ nope @}", "it {{v}}"), icf, data), None))
@@ -1029,14 +1030,22 @@ def m_template(rng, refs, loop, tail_lv):
         items = ["p", "q"][: rng.randint(1, 2)]
         names = some(refs) + [M_LV]
         rows.append({"row_id": "L", "type": "begin_for", "from": prev, "message_text": ";".join(items) + (";" if len(items) == 1 else ""), "loop_variable": M_LV})
-        rows.append({"row_id": f"r{k}", "type": "send_message", "from": "", "message_text": text(k, names)})
+        body_text = text(k, names)
+        rows.append({"row_id": f"r{k}", "type": "send_message", "from": "", "message_text": body_text})
         rows.append({"row_id": "", "type": "end_for"})
         desc.append(("loop", items, [("msg", k, names)]))
         prev = "L"
-        k += 1
-        names = some(refs) + ([M_LV] if tail_lv else [])
-        rows.append({"row_id": f"r{k}", "type": "send_message", "from": prev, "message_text": text(k, names)})
-        desc.append(("msg", k, names))
+        if rng.random() < 0.4:
+            # the row after the loop repeats the loop body's cell text character for character
+            # (what a cell is replaced by depends on the context, never on an earlier rendering)
+            rows.append({"row_id": f"r{k}x", "type": "send_message", "from": prev, "message_text": body_text})
+            desc.append(("msg", k, names))
+            k += 1
+        else:
+            k += 1
+            names = some(refs) + ([M_LV] if tail_lv else [])
+            rows.append({"row_id": f"r{k}", "type": "send_message", "from": prev, "message_text": text(k, names)})
+            desc.append(("msg", k, names))
     return rows, desc
 
 
